@@ -1,6 +1,8 @@
 package main
 
 import (
+	"fmt"
+	"go/types"
 	"regexp"
 	"strings"
 
@@ -10,9 +12,10 @@ import (
 func init() { register("C06", runC06) }
 
 func runC06(c *Ctx) {
-	c.Explain("Decides the structural clauses of 'revert is the exact inverse of apply' (narrow claim): (1) same source: the diffs RevertBlock reports are the fields of a MidState built from the same state and run through the same (*MidState).ApplyBlock as consensus.ApplyBlock uses, so the reported element sets cannot differ; (2) order: every diff slice that has an accessor is reversed in place before the update is built; (3) pre-block content: the reverted-leaf walker hashes every element kind as unspent/unresolved and unrevised from the element stored in the diff, and revise/resolve recorders store the element they are given only when the diff does not already hold the pre-block element (first touch in this block), so a second revision does not overwrite the state to be restored; (4) pointer stability: leaf pointers into the MidState's slices are re-pointed at fresh copies before the slices are permuted. Equality of the re-applied state and proof validity after a revert (accumulator algebra, C05) are not decided.")
+	c.Explain("Decides the structural clauses of 'revert is the exact inverse of apply' (narrow claim): (1) same source: the diffs RevertBlock reports are the fields of a MidState built from the same state and run through the same (*MidState).ApplyBlock as consensus.ApplyBlock uses, so the reported element sets cannot differ; (2) order: every diff slice that has an accessor is reversed in place before the update is built; (3) pre-block content: the reverted-leaf walker hashes every element kind as unspent/unresolved and unrevised from the element stored in the diff, and revise/resolve recorders store the element they are given only when the diff does not already hold the pre-block element (first touch in this block), so a second revision does not overwrite the state to be restored; (4) pointer stability: leaf pointers into the MidState's slices are re-pointed at fresh copies before the slices are permuted; (5) proof-update order: updated leaves are grouped by the pre-block proof length, so the apply-side proof update looks them up before the proof is extended by tree growth and the revert-side update only after the proof has been truncated back. Equality of the re-applied state and proof validity after a revert (accumulator algebra, C05) are not decided.")
 	c.NotCovered("equality of re-applied state and diffs (run-time notion)", "proof validity after revert / updateElementProof truncation (accumulator algebra, C05)")
 	ge := NewGuardEngine(c.P, c.Depth+4)
+	c06ProofUpdateOrder(c)
 	rb := c.P.Func(CRB)
 	ab := c.P.Func(CAB)
 	if rb == nil || ab == nil {
@@ -182,4 +185,83 @@ func c06Recorders(c *Ctx, ge *GuardEngine) {
 		}
 	}
 	c.Min("pre-block-element-kept", 2)
+}
+
+// c06ProofUpdateOrder: updateProof selects the group of updated leaves by len(e.MerkleProof), and both update
+// kinds key those groups by the pre-block proof length. Hence on apply no store to e.MerkleProof may precede
+// the updateProof call, and on revert no store may follow it.
+func c06ProofUpdateOrder(c *Ctx) {
+	for _, e := range []struct {
+		fn         string
+		storeFirst bool
+		why        string
+	}{
+		{"consensus.(*elementApplyUpdate).updateElementProof", false, "the proof is extended by tree growth only after the updated leaves of its pre-block tree were applied"},
+		{"consensus.(*elementRevertUpdate).updateElementProof", true, "the proof is truncated back to its pre-block length before the reverted leaves of that tree are looked up"},
+	} {
+		fn := c.P.Func(e.fn)
+		if fn == nil {
+			c.Undecided("proof-update-order", e.fn, "", "anchor does not resolve")
+			continue
+		}
+		c.NoteFunc(FuncName(fn))
+		type at struct {
+			b *ssa.BasicBlock
+			i int
+		}
+		var calls, stores []at
+		for _, b := range fn.Blocks {
+			for i, in := range b.Instrs {
+				switch x := in.(type) {
+				case *ssa.Call:
+					if f := x.Call.StaticCallee(); f != nil && FuncName(f) == "consensus.updateProof" {
+						calls = append(calls, at{b, i})
+					}
+				case *ssa.Store:
+					if fa, ok := x.Addr.(*ssa.FieldAddr); ok {
+						if pt, ok := fa.X.Type().Underlying().(*types.Pointer); ok {
+							if st, ok := pt.Elem().Underlying().(*types.Struct); ok && st.Field(fa.Field).Name() == "MerkleProof" {
+								stores = append(stores, at{b, i})
+							}
+						}
+					}
+				}
+			}
+		}
+		if len(calls) != 1 || len(stores) == 0 {
+			c.Undecided("proof-update-order", e.fn, c.P.Pos(fn.Pos()), fmt.Sprintf("expected one updateProof call and at least one MerkleProof store, found %d and %d", len(calls), len(stores)))
+			continue
+		}
+		reach := func(from, to at) bool { // can control flow from 'from' reach 'to'?
+			if from.b == to.b && from.i < to.i {
+				return true
+			}
+			seen := map[*ssa.BasicBlock]bool{}
+			st := append([]*ssa.BasicBlock{}, from.b.Succs...)
+			for len(st) > 0 {
+				b := st[len(st)-1]
+				st = st[:len(st)-1]
+				if seen[b] {
+					continue
+				}
+				seen[b] = true
+				if b == to.b {
+					return true
+				}
+				st = append(st, b.Succs...)
+			}
+			return false
+		}
+		ok := true
+		for _, s := range stores {
+			if e.storeFirst && reach(calls[0], s) {
+				ok = false
+			}
+			if !e.storeFirst && reach(s, calls[0]) {
+				ok = false
+			}
+		}
+		c.Check(ok, "proof-update-order", e.fn, c.P.Pos(fn.Pos()), ifElse(ok, e.why, "order violated: "+ifElse(e.storeFirst, "updateProof runs before the proof is truncated", "the proof is extended before updateProof runs")+", so the updated leaves are looked up under the post-block proof length (wrong or empty group)"))
+	}
+	c.Min("proof-update-order", 2)
 }
